@@ -690,7 +690,7 @@ def prof_C16(d, rng):
 def prof_C17(d, rng):
     prof_C03(d, rng)
     d["rerun"] = True
-    d["dry_run"] = False
+    d["dry_run"] = rng.random() < 0.08       # (first run only; the second run is always a real one)
     d["autoretry"] = False
     d["locsel"] = False
     d["junit"] = False
@@ -712,6 +712,7 @@ def prof_C18(d, rng):
     d["nested"] = rng.random() < 0.3
     d["log_level_changes"] = rng.random() < 0.3
     d["pre_handler"] = rng.random() < 0.3
+    d["p_clear_handlers"] = 0.3 if d["pre_handler"] else 0.1
 
 
 def c14_probe(world, hist, pred, stats):
